@@ -212,7 +212,9 @@ pub(crate) fn decode_internal<R: Read, S: Borrow<Schema>>(
             ))
         }
         Schema::Fixed(FixedSchema { size, .. }) => {
-            let mut buf = vec![0u8; *size];
+            // The size comes from the (possibly embedded, untrusted) schema: bound it like any
+            // other declared length before allocating for it.
+            let mut buf = vec![0u8; safe_len(*size)?];
             reader
                 .read_exact(&mut buf)
                 .map_err(|e| Details::ReadFixed(e, *size))?;
